@@ -29,6 +29,7 @@ def main(argv=None):
     ap.add_argument('--runs', type=int, default=None, help='override the maximum number of runs')
     ap.add_argument('--workers', type=int, default=None)
     ap.add_argument('--no-evidence', action='store_true')
+    ap.add_argument('--dump-digests', default=None, help='write {run index: [event-log digest, violated]} to this file')
     ap.add_argument('--survey', action='store_true', help='do not stop at the first violation; list all (no evidence written)')
     args = ap.parse_args(argv)
 
@@ -69,6 +70,9 @@ def main(argv=None):
     print(f'{args.prop} tier={args.tier} seed={seed} budget={budget}s kingdon={kfile}', flush=True)
     code, evidence, herr = batch.drive(mod, args.prop, args.tier, seed, budget, max_runs, selftest,
                                        nworkers=args.workers, survey=args.survey)
+    if args.dump_digests:
+        with open(args.dump_digests, 'w') as f:
+            json.dump(evidence.get('_digests', {}), f, sort_keys=True)
     if not args.no_evidence and not args.survey:
         p = batch.write_evidence(args.prop, evidence)
     cov = evidence['coverage']
